@@ -3,6 +3,7 @@ package chain
 import (
 	"encoding/json"
 	"os"
+	"path/filepath"
 )
 
 // A Trace is a complete, self-contained workload + schedule + fault sequence. It is produced while
@@ -144,6 +145,7 @@ func (t *Trace) Save(path string) error {
 	if err != nil {
 		return err
 	}
+	_ = os.MkdirAll(filepath.Dir(path), 0o755)
 	return os.WriteFile(path, b, 0o644)
 }
 
